@@ -213,6 +213,19 @@ impl Default for UistV1 {
     }
 }
 
+#[cfg(feature = "verif")]
+impl UistV1 {
+    /// Read-only copy of (resting book, pending buffer, next order id, trade log).
+    pub fn verif_snapshot(&self) -> (Vec<Order>, Vec<Order>, u64, Vec<Trade>) {
+        (
+            self.orderbook.inner.iter().cloned().collect(),
+            self.order_buffer.clone(),
+            self.orderbook.last_inserted,
+            self.trade_log.clone(),
+        )
+    }
+}
+
 #[derive(Clone, Debug)]
 struct OrderBook {
     inner: VecDeque<Order>,
